@@ -91,6 +91,10 @@ KNOWN = [
      "what": "comparing a cyclic container with itself recurses until the 8-bit register index overflows (index out of bounds in set_register, or `register + 1` overflowing in run_binary_op) "
              "(panic instead of an error or a stack overflow)",
      "witness": "l = [1]; l.push l; l.contains l"},
+    {"id": "C06p", "entry": r"text:run", "file": "runtime/src/vm.rs", "msg": r"attempt to add with overflow",
+     "what": "run_unary_op / run_binary_op called from a native function (display in print, comparisons, ..) while the "
+             "calling frame holds 254 or more registers: `next_register() + 1` overflows the 8-bit register index",
+     "witness": "print(0, 1, .., 250)  (corpus/C06/print_251_args.koto); x = [0, 1, .., 254]"},
     {"id": "C06l", "entry": r"text:format.*", "file": "format/src/format.rs", "msg": r"is not a char boundary",
      "what": "koto_format slices the source at a byte offset computed from character columns: panics on lines "
              "containing multi-byte characters",
@@ -458,7 +462,7 @@ def sweep(chk, binp, tier, seed, modelled_jobs=None):
     alljobs = jobs + extra + tjobs + mjobs
     byid = {j["id"]: j for j in alljobs}
     t0 = time.time()
-    lines, inc = run_jobs(binp, alljobs)
+    lines, inc = run_jobs(binp, alljobs, watchdog_ms=5000 if tier == "quick" else 20000)
     stats["sweep_wall_s"] = round(time.time() - t0, 1)
     fails = []
     hist = {}
